@@ -147,8 +147,8 @@ def eval_project(spec):
 def campaigns(tier):
     q = tier == "quick"
     return [
-        Campaign("calendars", "hyp", evaluate=eval_project, strategy=lambda: gen.project_specs(PF), n=2000 if q else 50000, floor_nontrivial=0.2,
+        Campaign("calendars", "hyp", evaluate=eval_project, strategy=lambda: gen.project_specs(PF), n=3000 if q else 50000, floor_nontrivial=0.2,
                  describe="D3: shifts, own hours, zones, DST, cross-midnight, leaves, holidays; whole-slot efforts"),
-        Campaign("calendars_subslot", "hyp", evaluate=eval_project, strategy=lambda: gen.project_specs(PF_SUB), n=500 if q else 10000,
+        Campaign("calendars_subslot", "hyp", evaluate=eval_project, strategy=lambda: gen.project_specs(PF_SUB), n=2000 if q else 20000,
                  describe="D3+D1: the same calendars with sub-slot efforts"),
     ]
